@@ -3,6 +3,8 @@
 package verifharness
 
 import (
+	"bytes"
+	"math/big"
 	"fmt"
 	"strconv"
 	"strings"
@@ -119,6 +121,17 @@ func plainDump(n tree.Node) string {
 	return "?"
 }
 
+// c11Gindex, when set, is the generalized index the operation is given (a caller-defined Gindex
+// implementation, not limited to 64 bits); otherwise Gindex64(g)
+var c11Gindex tree.Gindex
+
+func gix(g uint64) tree.Gindex {
+	if c11Gindex != nil {
+		return c11Gindex
+	}
+	return tree.Gindex64(g)
+}
+
 func c11Obs(shape *tshape, op string, g uint64, expand bool, vshape *tshape, h tree.HashFn) string {
 	return guard(func() string {
 		n := shape.build()
@@ -126,7 +139,7 @@ func c11Obs(shape *tshape, op string, g uint64, expand bool, vshape *tshape, h t
 		d0 := d.dump(n)
 		switch op {
 		case "get":
-			b, err := n.Getter(tree.Gindex64(g))
+			b, err := n.Getter(gix(g))
 			if err != nil {
 				return "res=ERR"
 			}
@@ -180,7 +193,7 @@ func c11Obs(shape *tshape, op string, g uint64, expand bool, vshape *tshape, h t
 			v := vshape.build()
 			dv := d.dump(v)
 			origRoot := rawRoot(n, h)
-			link, err := n.Setter(tree.Gindex64(g), expand)
+			link, err := n.Setter(gix(g), expand)
 			if err != nil {
 				return "res=ERR origroot=" + rootHex(rawRoot(n, h))
 			}
@@ -194,7 +207,7 @@ func c11Obs(shape *tshape, op string, g uint64, expand bool, vshape *tshape, h t
 			// one link applied twice (a root request in between): the first result must keep
 			// its value, the second must be the write of the second value into the ORIGINAL tree
 			v := vshape.build()
-			link, err := n.Setter(tree.Gindex64(g), expand)
+			link, err := n.Setter(gix(g), expand)
 			if err != nil {
 				return "res=ERR"
 			}
@@ -214,7 +227,7 @@ func c11Obs(shape *tshape, op string, g uint64, expand bool, vshape *tshape, h t
 			return "res=OK t1=" + plainDump(n1) + " r1=" + rootHex(r1) + " t2=" + plainDump(n2) + " r2=" + rootHex(n2.MerkleRoot(h)) +
 				" raw1=" + rootHex(rawRoot(n1, h)) + " raw2=" + rootHex(rawRoot(n2, h)) + " origroot=" + rootHex(rawRoot(n, h))
 		case "summ":
-			link, err := n.SummarizeInto(tree.Gindex64(g), h)
+			link, err := n.SummarizeInto(gix(g), h)
 			if err != nil {
 				return "res=ERR"
 			}
@@ -256,9 +269,187 @@ func shapes(d int, full int, level int, data *int) []*tshape {
 	return out
 }
 
+// pathGindex is a generalized index of any depth, as a caller of the library may define one (the
+// Gindex interface is exported for it): the path bits after the root bit, first step first.
+type pathGindex []bool
+
+func (g pathGindex) Subtree() tree.Gindex {
+	if len(g) == 0 {
+		return g
+	}
+	return append(pathGindex{}, g[1:]...)
+}
+func (g pathGindex) Anchor() tree.Gindex { return make(pathGindex, len(g)) }
+func (g pathGindex) Left() tree.Gindex   { return append(append(pathGindex{}, g...), false) }
+func (g pathGindex) Right() tree.Gindex  { return append(append(pathGindex{}, g...), true) }
+func (g pathGindex) Parent() tree.Gindex {
+	if len(g) == 0 {
+		return g
+	}
+	return append(pathGindex{}, g[:len(g)-1]...)
+}
+func (g pathGindex) IsLeft() bool  { return len(g) > 0 && !g[0] }
+func (g pathGindex) IsRoot() bool  { return len(g) == 0 }
+func (g pathGindex) IsClose() bool { return len(g) == 1 }
+func (g pathGindex) Depth() uint32 { return uint32(len(g)) }
+func (g pathGindex) BitIter() (tree.GindexBitIter, uint32) {
+	return &pathGindexIter{rest: g}, uint32(len(g))
+}
+func (g pathGindex) allBits() []bool { return append([]bool{true}, g...) }
+func (g pathGindex) LeftAlignedBigEndian() ([]byte, uint32) {
+	bits := g.allBits()
+	out := make([]byte, (len(bits)+7)/8)
+	for i, b := range bits {
+		if b {
+			out[i>>3] |= 0x80 >> (uint(i) & 7)
+		}
+	}
+	return out, uint32(len(bits))
+}
+func (g pathGindex) BigEndian() []byte {
+	bits := g.allBits()
+	out := make([]byte, (len(bits)+7)/8)
+	pad := len(out)*8 - len(bits)
+	for i, b := range bits {
+		if b {
+			j := i + pad
+			out[j>>3] |= 0x80 >> (uint(j) & 7)
+		}
+	}
+	return out
+}
+func (g pathGindex) LittleEndian() []byte {
+	out := g.BigEndian()
+	for i, j := 0, len(out)-1; i < j; i, j = i+1, j-1 {
+		out[i], out[j] = out[j], out[i]
+	}
+	return out
+}
+
+// the index as hexadecimal text (what the model reads)
+func (g pathGindex) hex() string {
+	x := new(big.Int).SetBytes(g.BigEndian())
+	return x.Text(16)
+}
+
+type pathGindexIter struct{ rest pathGindex }
+
+func (it *pathGindexIter) Next() (bool, bool) {
+	if len(it.rest) == 0 {
+		return false, false
+	}
+	b := it.rest[0]
+	it.rest = it.rest[1:]
+	return b, true
+}
+
+func pathOf(g uint64) pathGindex {
+	var p pathGindex
+	for i := tree.BitIndex(g); i > 0; i-- {
+		p = append(p, g&(uint64(1)<<(i-1)) != 0)
+	}
+	return p
+}
+
+// pathGindexAgrees: on 64-bit values the caller-defined index must behave like Gindex64 (a
+// mistake here would be the harness's, not the library's)
+func pathGindexAgrees(v uint64) bool {
+	a, b := tree.Gindex64(v), pathOf(v)
+	same := func(x, y tree.Gindex) bool { return bytes.Equal(x.BigEndian(), y.BigEndian()) && x.Depth() == y.Depth() }
+	la, na := a.LeftAlignedBigEndian()
+	lb, nb := b.LeftAlignedBigEndian()
+	ok := a.IsRoot() == b.IsRoot() && a.Depth() == b.Depth() && bytes.Equal(a.LittleEndian(), b.LittleEndian()) &&
+		bytes.Equal(la, lb) && na == nb
+	if v < 1<<63 { // (the children of a 64-bit index do not fit Gindex64)
+		ok = ok && same(a.Left(), b.Left()) && same(a.Right(), b.Right())
+	}
+	if v > 1 {
+		ok = ok && a.IsLeft() == b.IsLeft() && a.IsClose() == b.IsClose() && same(a.Parent(), b.Parent()) &&
+			same(a.Subtree(), b.Subtree()) && same(a.Anchor(), b.Anchor())
+	}
+	ia, da := a.BitIter()
+	ib, db := b.BitIter()
+	ok = ok && da == db
+	for i := uint32(0); i <= da+1; i++ {
+		ra, oa := ia.Next()
+		rb, ob := ib.Next()
+		ok = ok && oa == ob && (!oa || ra == rb)
+	}
+	return ok
+}
+
 func TestC11(t *testing.T) {
 	out := openOut(t, "C11")
 	defer out.close()
+	for _, v := range []uint64{1, 2, 3, 4, 5, 6, 7, 12, 255, 256, 1 << 20, 1<<40 + 99, 1 << 62, 1<<63 + 12345, ^uint64(0)} {
+		if !pathGindexAgrees(v) {
+			t.Fatalf("harness: pathGindex disagrees with Gindex64 on %x", v)
+		}
+	}
+	// generalized indices that are not Gindex64 values: the same operations, the index handed
+	// over as a caller-defined Gindex; shallow ones and ones far deeper than 64 levels (a
+	// spine of pairs along a random path, small subtrees hanging off it)
+	withCfg("sha", func(h tree.HashFn) {
+		rng := newRng(1111)
+		rounds := 40
+		if thorough() {
+			rounds = 600
+		}
+		vs := []*tshape{{kind: "L", data: []byte{0xee, 1}}, {kind: "Z", d: 0}, {kind: "P", l: &tshape{kind: "L", data: []byte{0xdd}}, r: &tshape{kind: "Z", d: 1}}}
+		for k := 0; k < rounds; k++ {
+			depth := []int{3, 9, 30, 62, 63, 64, 65, 66, 70, 100, 130}[rng.Intn(11)]
+			path := make(pathGindex, depth)
+			for i := range path {
+				path[i] = rng.Intn(2) == 1
+			}
+			side := func() *tshape {
+				switch rng.Intn(3) {
+				case 0:
+					return &tshape{kind: "Z", d: rng.Intn(3)}
+				case 1:
+					b := make([]byte, 4)
+					rng.Read(b)
+					return &tshape{kind: "L", data: b}
+				}
+				return &tshape{kind: "P", l: &tshape{kind: "L", data: []byte{byte(rng.Intn(256))}}, r: &tshape{kind: "Z", d: 0}}
+			}
+			sh := side()
+			for i := depth - 1; i >= 0; i-- {
+				if path[i] {
+					sh = &tshape{kind: "P", l: side(), r: sh}
+				} else {
+					sh = &tshape{kind: "P", l: sh, r: side()}
+				}
+			}
+			for j := 0; j < 5; j++ {
+				// the spine's end, a position a little above or below it, or next to it
+				g := append(pathGindex{}, path...)
+				switch rng.Intn(5) {
+				case 0:
+					g = g[:len(g)-rng.Intn(3)]
+				case 1:
+					g = append(g, rng.Intn(2) == 1)
+				case 2:
+					g = append(g, rng.Intn(2) == 1, rng.Intn(2) == 1)
+				case 3:
+					i := rng.Intn(len(g))
+					g[i] = !g[i]
+					g = g[:i+1]
+				}
+				v := vs[rng.Intn(len(vs))]
+				op := []string{"get", "set", "set", "summ", "set2"}[rng.Intn(5)]
+				e := rng.Intn(2) == 0
+				vsx := "-"
+				if op != "get" && op != "summ" {
+					vsx = v.Sexp()
+				}
+				c11Gindex = g
+				obs := c11Obs(sh, op, 0, e, v, h)
+				c11Gindex = nil
+				out.emit("deep", "c11", []string{sh.Sexp(), op, g.hex(), b01(e), vsx}, obs)
+			}
+		}
+	})
 	withCfg("sha", func(h tree.HashFn) {
 		depth, gdepth := 2, 4
 		if thorough() {
